@@ -6,7 +6,7 @@
     [EKeyGen], [ESign], [EHmac]) are not awaits: they make randomness and the two cryptographic
     primitives explicit inputs, so that the model never computes with a secret - it only moves
     secrets into the arguments of [ESave]/[EUpdate]/[ESign]/[EHmac]. *)
-From PK Require Export Lib.Bytes.
+From PK Require Export Lib.Bytes Auth.Scalar.
 From Coq Require Export ZArith.
 Open Scope N_scope.
 
